@@ -169,6 +169,15 @@ def _run(sb, case, r):
                 loc_text, _ = materialise_loc(sb, v['loc'], f'f{i}{key}', os.path.dirname(cand[i]))
                 vals[key] = v['scheme'] + (':' + loc_text if v['loc'] != 'none' else ('' if v.get('bare') else ':'))
         file_values[i] = vals
+        if case.get('symlink'):
+            # the candidate path is a symbolic link to a file kept elsewhere (dotfiles manager): locations relative to the
+            # configuration file still mean "next to the path it was found under"
+            real_dir = os.path.join(sb.root, f'dotfiles{i}')
+            os.makedirs(real_dir, exist_ok=True)
+            with open(os.path.join(real_dir, 'client.conf'), 'w') as f:
+                f.write(render_file(fs, vals))
+            os.symlink(os.path.join(real_dir, 'client.conf'), cand[i])
+            continue
         with open(cand[i], 'w') as f:
             f.write(render_file(fs, vals))
     env_vals = {}
@@ -248,6 +257,28 @@ def _run(sb, case, r):
             except Exception as e:
                 if known:
                     r.bad(f'C20/keychain/raised/{type(e).__name__}', repr(e))
+    # an application object is built from the configuration (no face given), THEN the environment changes, then the keychain
+    # entry points are asked: they follow the configuration as it is now
+    if not r.violations and case.get('late_env'):
+        from ndn import appv2
+        try:
+            appv2.NDNApp()
+        except Exception:
+            pass          # (an unusable transport value is not this step's business)
+        late_pib, late_tpm = os.path.join(sb.root, 'late-pib'), os.path.join(sb.root, 'late-tpm')
+        os.makedirs(late_pib)
+        os.makedirs(late_tpm)
+        KeychainSqlite3.initialize(os.path.join(late_pib, 'pib.db'), 'tpm-file', late_tpm)
+        os.environ['NDN_CLIENT_PIB'] = 'pib-sqlite3:' + late_pib
+        os.environ['NDN_CLIENT_TPM'] = 'tpm-file:' + late_tpm
+        for label, fn in (('appv2.NDNApp.default_keychain', appv2.NDNApp.default_keychain),):
+            try:
+                kc = fn()
+                if getattr(kc, 'path', None) != os.path.join(late_pib, 'pib.db') or getattr(kc.tpm, 'path', None) != late_tpm:
+                    r.bad(f'C20/keychain/stale-configuration/{label}', f'{getattr(kc, "path", None)} / {getattr(kc.tpm, "path", None)}')
+                kc.conn.close()
+            except Exception as e:
+                r.bad(f'C20/keychain/raised-after-environment-change/{type(e).__name__}', repr(e)[:200])
     # the configuration file is replaced (same path, modification time NOT newer) and read again in the same process
     if not r.violations and case.get('reread') and first is not None and 'transport' not in env_vals:
         new_t = 'tcp://192.0.2.7:7777'
@@ -322,7 +353,8 @@ def _case(draw):
             'env': {'transport': draw(st.one_of(st.none(), _TRANSPORTS)), 'pib': draw(st.one_of(st.none(), _PIB)),
                     'tpm': draw(st.one_of(st.none(), _TPM))},
             'default_exists': {'pib': [draw(st.booleans()), draw(st.booleans())], 'tpm': [draw(st.booleans()), draw(st.booleans())]},
-            'open_keychain': draw(st.booleans()), 'reread': draw(st.sampled_from([None, None, 0, 5]))}
+            'open_keychain': draw(st.booleans()), 'reread': draw(st.sampled_from([None, None, 0, 5])),
+            'symlink': draw(st.sampled_from([False, False, True])), 'late_env': draw(st.sampled_from([False, False, True]))}
 
 
 def _grid(tier):
